@@ -58,6 +58,23 @@ PAYLOADS = {
     "brace-open": "{zvq",
 }
 QUICK = list(PAYLOADS)[:15]
+# payloads placed BEFORE the canary (prefix, suffix): the first character of the text is not a letter. EnumProperty.values_from_list sends
+# such values through its positional-name branch (VALUE_<i>); every enum-value slot gets them under both enum renderings.
+EXEC_MARK = "zvqpwned"
+FIRSTCHAR = {
+    "first-digit-breakout": ['1" + zvq + "', ""],
+    "first-quote-breakout": ['" + zvq + "', ""],
+    "first-backslash": ["\\", '"zvq'],
+    "first-space": [" ", '" + zvq + "'],
+    "first-brace": ["{zvq}", '"zvq'],
+    "first-digit-import-exec": ['1" + str(__import__("sys").modules.setdefault("%s","yes")) + "' % EXEC_MARK, ""],
+}
+
+
+def _ps(payload):
+    """(prefix, suffix) of a payload spec."""
+    return ("", payload) if isinstance(payload, str) else (payload[0], payload[1])
+
 _REM = re.compile(r"(?i)([_-]?é中)?[_-]?x?zvq")
 
 
@@ -292,7 +309,51 @@ def _shape(src: str):
         if isinstance(n, (ast.Import, ast.ImportFrom)):
             for a in n.names:
                 a.name = _norm_ident(a.name)
+        # enum member NAMES derive from the value (letter-first) or from its position (VALUE_<i>) and members are emitted sorted by name:
+        # neither the name nor the order is part of the shape; what each member is assigned is
+        if isinstance(n, ast.ClassDef) and any(isinstance(b, ast.Name) and b.id in ("Enum", "IntEnum") for b in n.bases):
+            mem = [st for st in n.body if isinstance(st, ast.Assign) and len(st.targets) == 1 and isinstance(st.targets[0], ast.Name)]
+            for st in mem:
+                st.targets[0].id = "MEMBER"
+            rest = [st for st in n.body if st not in mem]
+            n.body = sorted(mem, key=lambda x: ast.dump(x)) + rest
     return ast.dump(tree), consts
+
+
+def _enum_members_plain(src: str):
+    """Every member of a generated Enum class, every element of a Literal[...] type and of a *_VALUES set must be a plain constant."""
+    with warnings.catch_warnings():
+        warnings.simplefilter("ignore")
+        tree = ast.parse(src)
+    for n in ast.walk(tree):
+        if isinstance(n, ast.ClassDef) and any(isinstance(b, ast.Name) and b.id in ("Enum", "IntEnum") for b in n.bases):
+            for st in n.body:
+                if isinstance(st, ast.Assign) and not isinstance(st.value, ast.Constant):
+                    return "enum member %s is not a plain literal: %s" % (ast.unparse(st.targets[0])[:40], ast.unparse(st.value)[:80])
+        if isinstance(n, ast.Subscript) and isinstance(n.value, ast.Name) and n.value.id == "Literal":
+            elts = n.slice.elts if isinstance(n.slice, ast.Tuple) else [n.slice]
+            for e in elts:
+                if not isinstance(e, ast.Constant):
+                    return "Literal[...] element is not a plain literal: %s" % ast.unparse(e)[:80]
+        if isinstance(n, ast.AnnAssign) and isinstance(n.value, ast.Set):
+            for e in n.value.elts:
+                if not isinstance(e, ast.Constant):
+                    return "value-set element is not a plain literal: %s" % ast.unparse(e)[:80]
+    return None
+
+
+def _is_enum_module(src: str) -> bool:
+    """Stand-alone enum modules (str_enum / int_enum / literal_enum templates): no relative imports."""
+    head = src.lstrip()
+    return (head.startswith("from enum import") or head.startswith("from typing import Literal")) and "from ." not in src
+
+
+def _import_executes(src: str):
+    """Execute a stand-alone enum module in a fresh interpreter; report if the payload's sentinel side effect happened."""
+    import subprocess
+    code = "import sys\nsrc = sys.stdin.read()\ntry:\n    exec(compile(src, 'm', 'exec'), {'__name__': 'm'})\nexcept BaseException as e:\n    print('EXC', type(e).__name__)\nprint('RAN' if %r in sys.modules else 'CLEAN')" % EXEC_MARK
+    r = subprocess.run(["/venv/bin/python", "-I", "-c", code], input=src, capture_output=True, text=True, timeout=60)
+    return "importing the module executed document text (sentinel %s set)" % EXEC_MARK if "RAN" in r.stdout else None
 
 
 def _toml_shape(text: str):
@@ -326,7 +387,7 @@ def check_case(case):
     meta, cfg_key = case["meta"], json.dumps(case["cfg"], sort_keys=True)
     C0, files0, info0, diag0 = _benign(meta, cfg_key)
     sfx = case["slots"]
-    C = probe.Canaries(lambda label, c: c + sfx[label] if label in sfx else c)
+    C = probe.Canaries(lambda label, c: _ps(sfx[label])[0] + c + _ps(sfx[label])[1] if label in sfx else c)
     files, diag, exc = _render(probe.build("A", C), meta, case["cfg"])
     res = {"fails": [], "absent": [], "diag": len(diag), "diag0": len(diag0), "exc": exc, "texts": {l: C.text[l] for l in sfx}}
     if exc is not None:
@@ -373,6 +434,13 @@ def check_case(case):
             except (tokenize.TokenError, SyntaxError, IndentationError) as e:
                 fail("syntax", p, e)
                 continue
+            bad_member = _enum_members_plain(src)
+            if bad_member:
+                fail("enum-member", p, bad_member)
+            if any(EXEC_MARK in _ps(v)[0] + _ps(v)[1] for v in sfx.values()) and EXEC_MARK in src and _is_enum_module(src):
+                ran = _import_executes(src)
+                if ran:
+                    fail("import-exec", p, ran)
             if np_ in info0:
                 sh0, consts0 = info0[np_]
                 if sh != sh0:
@@ -384,7 +452,7 @@ def check_case(case):
                     if label in probe.RUNTIME_SLOTS:
                         can = C.by_label[label]
                         can0 = C0.by_label[label]
-                        exp = sorted(c.replace(can0, C.text[label]) for c in consts0 if can0 in c)
+                        exp = sorted(c.replace(can0, C.core[label]) for c in consts0 if can0 in c)
                         # re-map every OTHER canary (identical in both renderings: same label order) - nothing to do
                         got = sorted(c for c in consts if can in c)
                         if exp != got:
@@ -458,6 +526,15 @@ def build_cases(run, tier, table):
                 full = False
             for k in (classes if full else few):
                 cases.append({"slots": {label: PAYLOADS[k]}, "classes": {label: k}, "meta": meta, "cfg": cfg, "kind": "single"})
+    for label in labels:
+        if label in emitted and label.split("@")[0] == "Schema.enum.item":
+            for (meta, cfg) in cfgs_for(label):
+                have = {c["classes"][label] for c in cases if list(c["slots"]) == [label] and c["cfg"] == cfg}
+                for k in few:       # option variant skipped above for non-representatives: enum values always get it
+                    if k not in have:
+                        cases.append({"slots": {label: PAYLOADS[k]}, "classes": {label: k}, "meta": meta, "cfg": cfg, "kind": "single"})
+                for k, v in FIRSTCHAR.items():
+                    cases.append({"slots": {label: v}, "classes": {label: k}, "meta": meta, "cfg": cfg, "kind": "first-char"})
     # slots that never reach the output are independent of each other: all of them at once, per class
     absent = [l for l in labels if l not in emitted]
     for k in (["triple-quote", "dq-breakout", "newline", "nul"] if quick else classes):
@@ -468,10 +545,10 @@ def build_cases(run, tier, table):
     for _ in range(ncombo):
         k = rng.randint(2, 4)
         ls = rng.sample(em, k)
-        cs_ = {l: rng.choice(classes) for l in ls}
+        cs_ = {l: (rng.choice(list(FIRSTCHAR)) if l.split("@")[0] == "Schema.enum.item" and rng.random() < 0.5 else rng.choice(classes)) for l in ls}
         meta = rng.choice(["none", "poetry", "setup", "pdm"]) if any(l.startswith("Info.") for l in ls) else "none"
         cfg = rng.choice([{}, {"literal_enums": True, "docstrings_on_attributes": True}])
-        cases.append({"slots": {l: PAYLOADS[c] for l, c in cs_.items()}, "classes": cs_, "meta": meta, "cfg": cfg, "kind": "combo"})
+        cases.append({"slots": {l: (FIRSTCHAR.get(c) or PAYLOADS[c]) for l, c in cs_.items()}, "classes": cs_, "meta": meta, "cfg": cfg, "kind": "combo"})
     if not quick:
         for _ in range(300):     # '/' is left out: in a component key it is JSON-pointer structure (the class is named after the last segment), not text
             l = rng.choice(em)
@@ -570,7 +647,7 @@ def run(run, tier, replay=None):
             summary[fid][key] = summary[fid].get(key, 0) + 1
             run.known_finding(fid, f"slot {label} payload {payload[label]!r}: {f['kind']} failure in {f['file_kind']} ({f['detail'][:120]}) - payload is outside the Coq slot_guard of that site")
         else:
-            vk = (tuple(sorted(c["slots"].items())), f["kind"], f["file_kind"])
+            vk = (json.dumps(c["slots"], sort_keys=True), f["kind"], f["file_kind"])
             vsum = run.extra.setdefault("violation_summary", {})
             vkey = "%s | %s | %s" % ("+".join(sorted(set(c.get("classes", {}).values()))), f["kind"], f["file_kind"])
             vsum[vkey] = vsum.get(vkey, 0) + 1
